@@ -1,11 +1,14 @@
 //! `hv <property> <tier> <seed> <cases-file> <stats-file>`: run the real Humphrey code on generated
 //! cases and write one line per case (`fn<TAB>args...<TAB>impl-output`) for the Lean driver.
 mod common;
+mod c02;
 mod c05;
+mod httpgen;
 mod tables;
 
 fn exec(prop: &str, f: &[String]) -> Option<String> {
     match prop {
+        "C02" => c02::exec(f),
         "C05" => c05::exec(f),
         _ => None,
     }
@@ -46,6 +49,7 @@ fn main() {
     let seed: u64 = args[3].parse().unwrap_or(1);
     let mut out = common::Out::new(&args[4]);
     match args[1].as_str() {
+        "C02" => c02::gen(&mut out, thorough, seed),
         "C05" => c05::gen(&mut out, thorough, seed),
         other => {
             eprintln!("unknown property {}", other);
